@@ -229,7 +229,7 @@ def l3_registration(F, R, M, lay, roles):
                     off_f = x[1][2][-1][1]
             sig[vn] = (dma_f, off_f)
             # value: region base (+ the area's offset), nothing else
-            BASE, OFF = 0x40000000, 0x2340
+            BASE, OFF = 0x40003000, 0x1340      # overlapping bits: base | offset != base + offset
 
             def leaf(t):
                 if t[0] == 'call' and F.bodies.get(t[2], {}).get('impl_adt') == M.dma_adt and t[2].endswith('::paddr'):
